@@ -96,13 +96,14 @@ class Ptr:
 
 
 def gen_case(rng):
-    case = C.gen_case(rng, encs=["none", "none", "gzip", "bzip2", "bzip2", "text", "lzma", "sie"], model_only=True)
+    case = C.gen_case(rng, encs=["none", "none", "gzip", "bzip2", "bzip2", "text", "lzma", "sie"])
     # more pointer traffic, no failing calls, positions inside the field
     sp = C.Spec(case)
     fields = [r["name"] for r in case["raws"]] + [f["name"] for f in case["derived"]]
     # under an open limit a two-input field may have one input auto-closed while the other is being
     # asked (time(NULL)-dependent, inside one call): no limit in histories with MULTIPLY fields
-    ops = [o for o in case["ops"] if o[0] == "l" and not any(f["kind"] == "M" for f in case["derived"])]
+    ops = [o for o in case["ops"] if o[0] == "l" and not any(f["kind"] in "MXW" for f in case["derived"])]
+    if any(f["kind"] == "X" for f in case["derived"]): ops.append(("k", -1))
     for _ in range(rng.randint(5, 40)):
         f = rng.choice(fields); e = sp.eof(f); b = sp.bof(f); u = rng.random()
         inside = lambda: rng.randint(min(b, e), max(b, e))
@@ -200,28 +201,40 @@ def main():
         if dm is not None and not (case["enc"] == "bzip2" and C.compare_model(case, res, mo0, opmap) is None):
             model_bad.append((case, res, dm))
 
-    # 3. writes: seek(WRITE) + put(HERE) == put(absolute) on the raw encoding
+    # 3. writes: seek(WRITE) + put(HERE) == seek(WRITE); seek(CUR|WRITE); put(HERE) == put(absolute), and the
+    #    pointer reported before and after, on every writable encoding, with and without a frame offset
+    #    (out-of-place encodings keep the write position in the temporary file)
     nput = 0
-    for ln, at, vals in put_here_cases(rng, 60 if not chk.thorough else 600):
-        outs = []
-        for variant in ("here", "abs"):
-            case = dict(enc="none", raws=[dict(name="a", type="UINT8", vals=[(7 * k) % 251 for k in range(ln)])], ops=[])
+    for ln, at0, vals in put_here_cases(rng, 40 if not chk.thorough else 400):
+        enc = rng.choice(["none", "none", "sie", "gzip", "bzip2", "lzma"])
+        spf = rng.choice([1, 1, 2]); fo = rng.choice([0, 0, 2, 3]); FO = fo * spf
+        at = FO + min(at0, ln)          # inside the field or at its end (past the end is encoding specific)
+        base = [(7 * k) % 251 for k in range(ln)]
+        outs = {}
+        for variant in ("here", "cur", "abs"):
+            case = dict(enc=enc, spf=spf, foff=fo, raws=[dict(name="a", type="UINT8", vals=base)], ops=[])
             dd = os.path.join(work, "p"); C.make_dirfile(dd, case)
             ops = ["o 1"]
-            if variant == "here": ops += ["s a %d S 1" % at, "t a", "p a H %d u8 %s" % (len(vals), " ".join(map(str, vals))), "t a"]
-            else: ops += ["p a %d %d u8 %s" % (at, len(vals), " ".join(map(str, vals))), "t a"]
-            ops += ["x", "g a 0 %d u8" % (ln + 20)]
+            pv = "%d u8 %s" % (len(vals), " ".join(map(str, vals)))
+            if variant == "here": ops += ["s a %d S 1" % at, "t a", "p a H " + pv, "t a"]
+            elif variant == "cur": ops += ["s a %d S 1" % max(FO, at - 1), "s a %d C 1" % (at - max(FO, at - 1)), "p a H " + pv, "t a"]
+            else: ops += ["p a %d %s" % (at, pv), "t a"]
+            ops += ["X", "g a 0 %d u8" % (FO + ln + 20)]
             rcp, outp = vlib.sh([exe, dd], inp=("\n".join(ops) + "\n").encode(), timeout=20)
-            outs.append(outp.strip().split("\n"))
-        nput += 1; evals += 2
-        expd = [(7 * k) % 251 for k in range(ln)] + [0] * max(0, at - ln)
+            outs[variant] = outp.strip().split("\n")
+        nput += 1; evals += 3
+        expd = [0] * FO + list(base)
         expd[at:at + len(vals)] = vals
         want = "g %d 0 %s" % (len(expd), " ".join(map(str, expd)))
-        here, ab = outs
-        if here[-1].strip() != want or ab[-1].strip() != want or here[2] != "t %d 0" % at or here[4] != "t %d 0" % (at + len(vals)) or ab[2] != "t %d 0" % (at + len(vals)):
+        here, cur, ab = outs["here"], outs["cur"], outs["abs"]
+        ok = (here[-1].strip() == want and ab[-1].strip() == want and cur[-1].strip() == want and len(here) > 4 and len(cur) > 4 and len(ab) > 2
+              and here[1] == "s %d 0" % at and here[2] == "t %d 0" % at and here[4] == "t %d 0" % (at + len(vals))
+              and cur[2] == "s %d 0" % at and cur[4] == "t %d 0" % (at + len(vals)) and ab[2] == "t %d 0" % (at + len(vals)))
+        if not ok:
             found_any = True
-            chk.violation("C17/put-here/raw", "seek(WRITE %d)+put(HERE) vs put(%d) of %s on %d samples: here=%s abs=%s want=%s" % (
-                at, at, vals, ln, here[1:], ab[1:], want[:80]), {"kind": "impl-vs-spec", "len": ln, "at": at, "vals": vals, "here": here, "abs": ab, "want": want})
+            chk.violation("C17/put-here/%s" % enc, "%s spf %d frameoffset %d: seek(WRITE %d)+put(HERE) / seek+seek(CUR)+put(HERE) / put(%d) of %s on %d samples: here=%s cur=%s abs=%s want=%s" % (
+                enc, spf, fo, at, at, vals, ln, here[1:5], cur[1:5], ab[1:3], want[:60]),
+                {"kind": "impl-vs-spec", "enc": enc, "spf": spf, "frameoffset": fo, "len": ln, "at": at, "vals": vals, "here": here, "cur": cur, "abs": ab, "want": want})
             break
 
     # 4. write then read through the same handle, close, reopen, compare (out-of-place encodings keep
